@@ -25,7 +25,7 @@ open TLX
 
 /-- the Python exceptions the subset can raise; `fuel` is not one: a `while` loop ran out of the rounds its spec
     allows (the theorems exclude it) -/
-inductive Err | index | zeroDiv | value | overflow | key | fuel
+inductive Err | index | zeroDiv | value | overflow | key | type | fuel
   deriving DecidableEq, Repr, Inhabited
 
 /-- how a statement list was left -/
@@ -120,6 +120,21 @@ def dictGetE {κ ν : Type} (d : Dict κ ν) (k : κ) : Except Err ν :=
 /-- a dict display as an association list in display order: a later entry of the same key wins -/
 def tableGet {κ ν : Type} [DecidableEq κ] (t : List (κ × ν)) (k : κ) : Option ν :=
   (t.reverse.find? (fun e => decide (e.1 = k))).map (·.2)
+
+/-- `d.keys()` of a dict display: every key once, at the place of its first entry -/
+def tableKeys {κ ν : Type} [DecidableEq κ] (t : List (κ × ν)) : List κ := (t.map (·.1)).eraseDups
+
+/-- `d.get(x)` where `x` is an int or a key-typed value and the keys are not ints: an int is never found -/
+def tableGetU {κ ν : Type} [DecidableEq κ] (t : List (κ × ν)) (x : Sum Int κ) : Option ν :=
+  match x with
+  | .inl _ => none
+  | .inr k => tableGet t k
+
+/-- calling what `d.get(k)` returned: `None` is not callable (TypeError) -/
+def callClass {κ α : Type} (f : Option κ) (k : κ → Except Err α) : Except Err α :=
+  match f with
+  | none => .error .type
+  | some c => k c
 
 /-! ### loops -/
 
